@@ -56,7 +56,8 @@ fn extract_function_type_info(
     }
 }
 
-/// The type table followed by the process type of every function that has none registered.
+/// The type table followed by the process type of every function, and the callable type of
+/// every builtin signature, that has none registered.
 ///
 /// A process handle carries the index of a function (the spawned one, or the one `&.` was
 /// evaluated under), and its concrete type is that function's process type. The compiler
@@ -77,6 +78,37 @@ fn types_with_process_types(input: &CompatibilityInput) -> Vec<Type> {
         let (_, _, send, receive) = extract_function_type_info(func, input.types);
         if (send.is_some() || receive.is_some()) && seen.insert((send, receive)) {
             types.push(Type::Process { send, receive });
+        }
+    }
+
+    // Likewise a builtin value is tested through the never-receiving callable type of its
+    // signature, which is registered only where the program happens to write that type (and
+    // which tree-shaking drops): give every builtin signature one.
+    let mut callables: HashSet<(usize, usize)> = types
+        .iter()
+        .filter_map(|ty| match ty {
+            Type::Callable {
+                parameter,
+                result,
+                receive,
+            } if types.get(*receive).is_some_and(|t| t.is_never()) => Some((*parameter, *result)),
+            _ => None,
+        })
+        .collect();
+    for builtin in input.builtins {
+        if callables.insert((builtin.param_type, builtin.result_type)) {
+            let never = match types.iter().position(|ty| ty.is_never()) {
+                Some(id) => id,
+                None => {
+                    types.push(Type::never());
+                    types.len() - 1
+                }
+            };
+            types.push(Type::Callable {
+                parameter: builtin.param_type,
+                result: builtin.result_type,
+                receive: never,
+            });
         }
     }
     types
